@@ -100,6 +100,7 @@ func checkC15(r *Run) int {
 		intra [2]bool
 		msg   []int
 		class string
+		split bool
 	}
 	var vs []variant
 	for _, p := range permutations(5) {
@@ -112,30 +113,54 @@ func checkC15(r *Run) int {
 			intras = [][2]bool{{false, false}, {true, false}, {false, true}, {true, true}}
 		}
 		for _, in := range intras {
-			vs = append(vs, variant{p, in, id4, cls})
+			vs = append(vs, variant{p, in, id4, cls, false})
 		}
 	}
 	for _, in := range [][2]bool{{true, false}, {false, true}, {true, true}} {
-		vs = append(vs, variant{id5, in, id4, "branch-order-within-block"})
+		vs = append(vs, variant{id5, in, id4, "branch-order-within-block", false})
 	}
 	for _, mp := range permutations(4)[1:] {
-		vs = append(vs, variant{id5, [2]bool{}, mp, "message-order"})
+		vs = append(vs, variant{id5, [2]bool{}, mp, "message-order", false})
 		if r.Tier == "thorough" {
-			vs = append(vs, variant{[]int{2, 0, 1, 3, 4}, [2]bool{}, mp, "message-order+field-order"})
+			vs = append(vs, variant{[]int{2, 0, 1, 3, 4}, [2]bool{}, mp, "message-order+field-order", false})
 		}
 	}
+	// the same permutations with the non-root messages declared in an imported file of the package
+	// (the order inside the generated file then no longer lines up with the order inside the imported one)
+	nPlain := len(vs)
+	for i, v := range append([]variant{}, vs...) {
+		if v.class == "message-order" || i%10 == 0 || r.Tier == "thorough" {
+			v.split = true
+			vs = append(vs, v)
+		}
+	}
+	_ = nPlain
 	var execs []*gExec
 	var cases []*space.Case
 	for i, v := range vs {
 		for _, srt := range []bool{true, false} {
 			f := c15File(v.item, v.intra, v.msg)
 			f.Pkg, f.Name = "perm", "perm.proto"
+			if v.split {
+				sc := space.Split(&space.Case{Label: "x", File: f, Cfg: space.BaseConfig("Perm", "Twin"), Tags: map[string]string{}})
+				if sc != nil {
+					f = sc.File
+				}
+			}
 			cfg := space.BaseConfig("Perm", "Twin")
 			cfg.Sort = srt
 			cfg.Exclude = []string{"Perm.Hidden"}
+			// options addressed by full path below the two roots' equally named fields
+			cfg.Required = []string{"Twin.Nest.S"}
+			cfg.Computed = []string{"Perm.Nest.I"}
+			cfg.Sensitive = []string{"Twin.Nest.I", "Perm.Nest.S"}
+			cfg.NameOverrides = map[string]string{"Twin.Nest.S": "twin_s"}
 			label := fmt.Sprintf("items=%v intra=%v msgs=%v sort=%v", v.item, v.intra, v.msg, srt)
-			execs = append(execs, &gExec{Label: label, FD: f.Descriptor(), YAML: cfg.YAML(nil, nil)})
-			if !srt {
+			if v.split {
+				label += " split-files"
+			}
+			execs = append(execs, &gExec{Label: label, FD: f.Descriptor(), Extra: f.SiblingDescriptors(), YAML: cfg.YAML(nil, nil)})
+			if !srt && !v.split {
 				fc := c15File(v.item, v.intra, v.msg)
 				cases = append(cases, &space.Case{Label: "C15/" + label, Family: "F6", Group: "perm", Variant: fmt.Sprint(i), Tags: map[string]string{"class": "perm", "card": v.class, "vt": "perm", "pos": "P0"}, File: fc, Cfg: cfg})
 			}
@@ -143,7 +168,7 @@ func checkC15(r *Run) int {
 	}
 	r.runAll(execs, r.Mod.Tools.Plugin)
 	r.phase("plugin runs")
-	var refSorted string
+	refSortedBy := map[bool]string{}
 	for i, e := range execs {
 		v := vs[i/2]
 		if e.Res.ExitCode != 0 || e.Res.Content() == "" {
@@ -151,8 +176,9 @@ func checkC15(r *Run) int {
 			continue
 		}
 		if i%2 == 0 { // sort on
+			refSorted := refSortedBy[v.split]
 			if refSorted == "" {
-				refSorted = e.Res.Content()
+				refSortedBy[v.split] = e.Res.Content()
 				continue
 			}
 			if e.Res.Content() != refSorted {
